@@ -88,7 +88,38 @@ PINNED = {
                                 '_get_queued_transfers', '_queue_remotely'],
     'model:Transfer': ['is_transfered', '_transfer_progress_callback'],
 }
-FILES = {'connection': 'network/connection.py', 'manager': 'transfer/manager.py', 'model': 'transfer/model.py'}
+FILES = {'connection': 'network/connection.py', 'manager': 'transfer/manager.py', 'model': 'transfer/model.py',
+         'state': 'transfer/state.py', 'primitives': 'protocol/primitives.py', 'messages': 'protocol/messages.py',
+         'rate_limiter': 'network/rate_limiter.py', 'network': 'network/network.py', 'events': 'events.py', 'utils': 'utils.py',
+         'shares': 'shares/manager.py', 'exceptions': 'exceptions.py', 'constants': 'constants.py'}
+
+# (phase 8) HELPERS the modelled behaviour relies on, pinned the same way.  'mod:Class' -> methods, 'mod:Class' -> None = the
+# whole class, 'mod:' -> module level functions.
+HELPERS = {
+    'connection:PeerConnection': ['__init__', 'set_connection_state'],
+    'connection:DataConnection': ['send_message', 'encode_message_data', 'serialize_message', 'receive_message', '_read_message',
+                                  '_message_reader_loop', '_perform_message_callback'],
+    'connection:ListeningConnection': ['accept'],
+    'manager:TransferManager': ['download', 'add', 'find_transfer', '_add_upload', '_on_message_received', '_on_peer_transfer_queue',
+                                'request_management_cycle', '_reset_remotely_queued_flags'],
+    'model:Transfer': ['transition', 'is_processing', 'is_upload', 'is_download', 'reset_queue_vars', 'set_start_time', 'set_complete_time',
+                       '_transfer_task_complete'],
+    'model:TransferDirection': None, 'model:FailReason': None,
+    'state:': ['_with_state_lock'],
+    'state:TransferState': None, 'state:QueuedState': None, 'state:InitializingState': None, 'state:DownloadingState': None,
+    'state:UploadingState': None, 'state:CompleteState': None, 'state:IncompleteState': None, 'state:FailedState': None,
+    'primitives:uint32': None, 'primitives:uint64': None,
+    'messages:PeerTransferRequest': None, 'messages:PeerTransferReply': None, 'messages:PeerUploadFailed': None,
+    'messages:PeerTransferQueue': None, 'messages:PeerTransferQueueFailed': None, 'messages:PeerInit': None,
+    'rate_limiter:UnlimitedRateLimiter': None, 'rate_limiter:LimitedRateLimiter': ['take_tokens'],
+    'network:Network': ['_finalize_peer_connection', 'on_peer_accepted', 'send_peer_messages', 'get_peer_connection', 'create_peer_response_future',
+                        '_make_direct_connection', 'on_message_received', 'set_upload_speed_limit', 'set_download_speed_limit'],
+    'events:EventBus': ['register', 'emit'], 'events:': ['on_message', 'build_message_map'],
+    'utils:': ['ticket_generator'],
+    'shares:SharesManager': ['get_filesize', 'create_directory', 'get_download_directory'],
+    'exceptions:AioSlskException': None, 'exceptions:NetworkError': None, 'exceptions:PeerConnectionError': None,
+    'exceptions:ConnectionReadError': None, 'exceptions:ConnectionWriteError': None, 'exceptions:ConnectionFailedError': None,
+}
 
 
 def _norm(fn):
@@ -99,6 +130,17 @@ def _norm(fn):
     return ast.unparse(f)
 
 
+def _norm_class(c):
+    """a class without docstrings (its own, its methods', attribute doc strings)"""
+    c = ast.parse(ast.unparse(c)).body[0]
+    for n in ast.walk(c):
+        b = getattr(n, 'body', None)
+        if isinstance(b, list):
+            nb = [x for x in b if not (isinstance(x, ast.Expr) and isinstance(x.value, ast.Constant) and isinstance(x.value.value, str))]
+            n.body = nb or [ast.Pass()]
+    return ast.unparse(c)
+
+
 def fingerprints(src: Path) -> dict:
     trees = {k: ast.parse((src / 'aioslsk' / v).read_text()) for k, v in FILES.items()}
     out = {}
@@ -107,6 +149,83 @@ def fingerprints(src: Path) -> dict:
         c = _cls(trees[mod], cls)
         for n in names:
             out[f'{cls}.{n}'] = _norm(_fn(c.body, n))
+    for key, names in HELPERS.items():
+        mod, cls = key.split(':')
+        if not cls:
+            for n in names:
+                out[f'helper:{mod}.{n}'] = _norm(_fn(trees[mod].body, n))
+        elif names is None:
+            out[f'helper:{mod}.{cls}'] = _norm_class(_cls(trees[mod], cls))
+        else:
+            c = _cls(trees[mod], cls)
+            for n in names:
+                out[f'helper:{mod}.{cls}.{n}'] = _norm(_fn(c.body, n))
+    return out
+
+
+def _const(tree, name):
+    for n in tree.body:
+        tgt = n.targets[0] if isinstance(n, ast.Assign) and len(n.targets) == 1 else (n.target if isinstance(n, ast.AnnAssign) else None)
+        if tgt is not None and _u(tgt) == name and isinstance(n.value, ast.Constant) and isinstance(n.value.value, (int, float)):
+            return n.value.value
+    raise Refuse(f'constant {name} not found / not a literal')
+
+
+def _class_const(c, name):
+    for n in c.body:
+        tgt = n.targets[0] if isinstance(n, ast.Assign) and len(n.targets) == 1 else (n.target if isinstance(n, ast.AnnAssign) else None)
+        if tgt is not None and _u(tgt) == name:
+            return n.value
+    raise Refuse(f'{c.name}.{name} not found')
+
+
+def translate_helpers(src: Path, offset_width: int, ticket_width: int) -> list:
+    """Constants of helper modules that the model / the harness use (phase 8)."""
+    T = {k: ast.parse((src / 'aioslsk' / v).read_text()) for k, v in FILES.items()}
+    out = ['(* ---- phase 8: constants of helper modules ---- *)']
+    fmt = {'<I': 4, '<Q': 8}
+    for cls, want in (('uint32', ticket_width), ('uint64', offset_width)):
+        v = _u(_class_const(_cls(T['primitives'], cls), 'STRUCT'))
+        f = v[len("struct.Struct('"):-2] if v.startswith("struct.Struct('") else None
+        if f not in fmt:
+            raise Refuse(f'primitives.{cls}.STRUCT changed: {v} (little-endian unsigned expected)')
+        if fmt[f] != want:
+            raise Refuse(f'primitives.{cls} is {fmt[f]} bytes wide but the transfer code uses it for a {want} byte field')
+        out.append(f"Definition {cls}_little_endian_width : nat := {fmt[f]}%nat.   (* struct format '{f}' *)")
+    gu = _class_const(_cls(T['rate_limiter'], 'UnlimitedRateLimiter'), 'MIN_BUCKET_SIZE')
+    gl = _class_const(_cls(T['rate_limiter'], 'LimitedRateLimiter'), 'MIN_BUCKET_SIZE')
+    if not (isinstance(gu, ast.Constant) and isinstance(gl, ast.Constant)):
+        raise Refuse('rate limiter grant sizes are not literals')
+    out += [f'Definition grant_unlimited : Z := {gu.value}.', f'Definition grant_limited : Z := {gl.value}.']
+    tt = _const(T['constants'], 'TRANSFER_TIMEOUT')
+    if not (60 < tt <= 400):
+        raise Refuse(f'constants.TRANSFER_TIMEOUT = {tt}: the harness delivers segments up to 60 s apart and waits 400 s for the read timeout')
+    out.append(f'Definition transfer_read_timeout_s : Z := {int(tt)}.')
+    td = _cls(T['model'], 'TransferDirection')
+    dv = {_u(n.targets[0]): _u(n.value) for n in td.body if isinstance(n, ast.Assign)}
+    if dv != {'UPLOAD': '0', 'DOWNLOAD': '1'}:
+        raise Refuse(f'TransferDirection values changed: {dv}')
+    out.append('Definition direction_download : Z := 1.')
+    fr = _cls(T['model'], 'FailReason')
+    fv = {_u(n.targets[0]): n.value.value for n in fr.body if isinstance(n, ast.Assign) and isinstance(n.value, ast.Constant)}
+    if fv.get('CANCELLED') != 'Cancelled' or fv.get('FILE_READ_ERROR') != 'File read error.':
+        raise Refuse(f'FailReason strings changed: {fv}')
+    # exception hierarchy: the handler tables of _download_file/_upload_file rely on it
+    ex = {n.name: [_u(b) for b in n.bases] for n in T['exceptions'].body if isinstance(n, ast.ClassDef)}
+    def anc(name, seen=()):
+        r = []
+        for b in ex.get(name, []):
+            r.append(b)
+            if b in ex and b not in seen:
+                r += anc(b, seen + (name,))
+        return r
+    for e in ('ConnectionReadError', 'ConnectionWriteError', 'PeerConnectionError'):
+        a = anc(e)
+        if 'AioSlskException' not in a or any(x in a for x in ('OSError', 'ValueError', 'IOError')) or 'asyncio.CancelledError' in a:
+            raise Refuse(f'exceptions.{e}: ancestors {a} (must be an AioSlskException and not an OSError/ValueError)')
+    if 'ConnectionWriteError' in anc('PeerConnectionError') or 'PeerConnectionError' in anc('ConnectionWriteError'):
+        raise Refuse('ConnectionWriteError / PeerConnectionError became related')
+    out += ['Definition network_errors_are_not_os_errors : bool := true.', '']
     return out
 
 
@@ -399,6 +518,7 @@ def translate(src: Path) -> dict:
         raise Refuse(f'_upload_file: with body changed: {ub}')
     out += [f'Definition upload_seek : bool := {seek}.', '']
     out += translate_phase4(src, conn, man)
+    out += translate_helpers(src, 8, 4)
     check_pins(src)
     return {'C04Gen.v': '\n'.join(out)}
 
